@@ -48,6 +48,9 @@ def default_of(name):
 def signature_source(shape, first=None):
   parts = [first] if first else []
   parts += list(shape['pos'])
+  k = shape.get('posonly_pos') or 0
+  if k and shape.get('kind') == 'function' and len(shape['pos']) >= k:
+    parts.insert(len(parts) - len(shape['pos']) + k, '/')   # def f(a, /, b, ...): a.. positional-only
   req = set(shape.get('required_defaults') or [])
   nonlit = set(shape.get('nonliteral_defaults') or [])
 
@@ -77,6 +80,13 @@ def signature_source(shape, first=None):
 
 def named_params(shape):
   return shape['pos'] + shape['dflt'] + shape['kwonly'] + shape['kwdflt']
+
+
+def posonly_params(shape):
+  """The leading required parameters declared positional-only (`posonly_pos`): they cannot be
+  bound, the caller passes them by position."""
+  k = shape.get('posonly_pos') or 0
+  return list(shape['pos'][:k]) if k and shape.get('kind') == 'function' else []
 
 
 def record_source(shape):
